@@ -180,8 +180,10 @@ class Program:
         s.static_cache = {}
         s.aliases = {}
         for rel, src in s.src.files.items():
-            for m in re.finditer(r'(?m)^\s*(?:pub(?:\([^)]*\))?\s+)?type\s+(\w+)\s*=\s*([^;]+);', src):
-                if '<' not in m.group(1): s.aliases.setdefault(m.group(1), m.group(2).strip())
+            for m in re.finditer(r'(?m)^(?:pub(?:\([^)]*\))?\s+)?type\s+(\w+)\s*=\s*([^;]+);', src):
+                if '<' not in m.group(1) and m.group(1) not in ('Result',): s.aliases.setdefault(m.group(1), m.group(2).strip())
+            for m in re.finditer(r'\b([A-Z]\w*)\s+as\s+([A-Z]\w*)\b', ' '.join(re.findall(r'(?m)^\s*(?:pub\s+)?use\s+[^;]+;', src))):
+                if m.group(1) != m.group(2): s.aliases.setdefault(m.group(2), m.group(1))
 
     def norm(s, t):
         """normalised type text for matching impl headers against call sites (aliases expanded)"""
